@@ -106,7 +106,7 @@ class Term:
 
 
 class Prod:
-    __slots__ = ('lhs', 'rhs', 'alias', 'maybe', 'idx')
+    __slots__ = ('lhs', 'rhs', 'alias', 'maybe', 'idx', 'rule')
 
     def __init__(self, lhs, rhs, alias=None, maybe=None, idx=0):
         self.lhs, self.rhs, self.alias, self.maybe, self.idx = lhs, rhs, alias, maybe, idx
@@ -363,12 +363,13 @@ def count_kept(alts, keep, rg):
 
 # ------------------------------------------------------------------ documented GrammarError predicate
 
-def colliding_optionals(G):
+def colliding_optionals(G, want_dup_empty=False):
     """True iff some rule (or the body of a repeated sub-expression, which becomes a rule of its
     own) has two choice paths through its groups / [..] / ? / small ~n..m that spell out the same
     non-empty symbol sequence -- the documented "Rules defined twice ... colliding expansion of
     optionals" case.  Aliases do not distinguish alternatives (`A | A -> x` is a duplicate)."""
     found = [False]
+    dup_empty = [False]
     by_pat = {}
     for t in G.get('terms', []):
         by_pat.setdefault(tuple(t['pat']), t['name'])
@@ -426,6 +427,8 @@ def colliding_optionals(G):
         ne = [s for s in seqs if s]
         if len(ne) != len(set(ne)):
             found[0] = True
+        if len(seqs) - len(ne) > 1:
+            dup_empty[0] = True
 
     import itertools
     for r in G['rules']:
@@ -433,4 +436,63 @@ def colliding_optionals(G):
         for a in r['alts']:
             allseq.extend(seqs_alt(a))
         check(allseq)
+    if want_dup_empty:
+        return dup_empty[0]
     return found[0]
+
+
+def duplicate_empty_alternatives(G):
+    """some rule can spell the empty sequence along two different choice paths.  lark keeps one of
+    the identical empty productions (documented as fine in C01); which shaping (alias / None
+    placeholders) survives is not specified, so tree-level oracles skip such grammars."""
+    return colliding_optionals(G, want_dup_empty=True)
+
+
+# ------------------------------------------------------------------ adapter: lark's compiled BNF
+
+class LarkRulesGrammar(RefGrammar):
+    """the compiled rule list of a Lark instance (public attributes .rules/.terminals/.ignore_tokens)
+    wrapped so that the reference models can interpret it.  Used only where the property itself is
+    about the compiled rules (C02: the LALR automaton of those rules; C20: the forest names them)."""
+
+    def __init__(self, l, start=None):
+        self.G = None
+        self.nts, self.order, self.terms = {}, [], {}
+        self.term_by_name, self.term_by_pat = {}, {}
+        self.templates = {}
+        self.start = list(start or l.options.start)
+        for td in l.terminals:
+            p = td.pattern
+            pat = ['s' if type(p).__name__ == 'PatternStr' else 'x', p.value, ''.join(sorted(p.flags))]
+            tid = len(self.terms)
+            T = Term(tid, td.name, pat, td.priority, True)
+            T.lexname = td.name
+            self.terms[tid] = T
+            self.term_by_name[td.name] = T
+        self.ignore = [self.term_by_name[n].tid for n in l.ignore_tokens if n in self.term_by_name]
+        self.rules = []
+        for r in l.rules:
+            name = r.origin.name
+            if name not in self.nts:
+                opts = r.options
+                self._new_nt(name, 'rule', name, mods='', prio=None, keep=False)
+            nt = self.nts[name]
+            rhs = []
+            for s in r.expansion:
+                if s.is_term:
+                    if s.name not in self.term_by_name:      # %declare'd terminal
+                        tid = len(self.terms)
+                        T = Term(tid, s.name, ['x', '(?!)', ''], None, True)
+                        T.lexname = s.name
+                        self.terms[tid] = T
+                        self.term_by_name[s.name] = T
+                    rhs.append(('T', self.term_by_name[s.name].tid, False))
+                else:
+                    rhs.append(('N', s.name))
+            p = Prod(name, rhs, r.alias or (r.options.template_source if r.options else None), None, len(nt.prods))
+            p.rule = r
+            nt.prods.append(p)
+            self.rules.append(p)
+        for s in self.start:
+            if s not in self.nts:
+                self._new_nt(s, 'rule', s)
